@@ -285,6 +285,23 @@ def pair(ctx: Ctx, rule="R-C20-PAIR") -> None:
             return None
         return {"*srv": fn}
 
+    # stop() waits for the listening socket AND (Python >= 3.12) for every open connection: a client that connects and stays silent would keep it waiting for ever,
+    # so the await of stop() is bounded by a timeout
+    parent = {}
+    for a in ast.walk(f.node):
+        for ch in ast.iter_child_nodes(a):
+            parent[id(ch)] = a
+    for helper in C.helper_callees(ctx, f):
+        for a in ast.walk(helper.node):
+            for ch in ast.iter_child_nodes(a):
+                parent[id(ch)] = a
+    for st_ in stops:
+        p_ = parent.get(id(st_.ast))
+        bounded = isinstance(p_, ast.Call) and (dotted(p_.func) or "").split(".")[-1] in ("wait_for", "timeout", "timeout_at") and \
+            (C.kw(p_, "timeout") is not None or len(p_.args) >= 2) and not C.is_const(C.kw(p_, "timeout") or (p_.args[1] if len(p_.args) > 1 else None), None)
+        ctx.check(bounded, rule, f, "stop() of the health check server is awaited under a timeout", "wait_for(stop(), timeout=...)",
+                  "Worker.run awaits health_check_server.stop() without a time bound: stop() waits until every open connection is closed, so one client that connects and sends nothing "
+                  "keeps run() from ever returning - request (non-)bytes disturb the worker", node=st_, instance="stop bounded")
     for s in starts:
         sa = aw.get(s.id)
         ctx.check(sa is not None, rule, f, "start() awaited", "awaited", "health_check_server.start() is not awaited", node=s, instance="start awaited")
